@@ -353,6 +353,13 @@ def index_form(vals, which):
     representable) floats; all forms must behave alike, and negative entries must be refused"""
     vals = list(vals)
     neg = any(v < 0 for v in vals)
+    if not neg and which % 5 == 4 and vals:
+        # a non-contiguous view of an array that already is uint64 (every other element of a start/stop table): the
+        # neighbouring words are other numbers
+        wide = np.empty(2 * len(vals), dtype=np.uint64)
+        wide[0::2] = vals
+        wide[1::2] = [v + 7 for v in vals]
+        return wide[0::2]
     which = which % 4
     if neg or which == 1:
         return np.array(vals, dtype=np.int64) if which != 2 else vals
